@@ -1312,8 +1312,9 @@ Value for timeout (%" PRIi64 ") is out of range.", t->timeout.d);
 			xt.errmsz = z;
 			goto fatal;
 		}
-		/* otherwise */
-		timeo = t->timeout.d;
+		/* otherwise, timeout is in milliseconds, alarm(2) wants
+		 * seconds, round up so a sub-second limit isn't unbounded */
+		timeo = t->timeout.d / 1000 + !!(t->timeout.d % 1000);
 		goto timeo;
 
 	case VTOD_TYP_DUE: {
